@@ -5,7 +5,7 @@
 From stdpp Require Import gmap.
 From Coq Require Import NArith.
 From RV Require Import Base.Str Base.Utf8 Base.PathLex Path.Helpers Path.Expand Path.Abs Memfs.State Memfs.Ops Memfs.Walk Memfs.WalkOps Memfs.Step
-  Memfs.Wf Memfs.WfMore Memfs.WfMove Memfs.Spec Memfs.Refine Memfs.RefineMore Memfs.RefineChown Memfs.RefineChmod Memfs.RefineList Memfs.RefineMove Memfs.ContentFacts Memfs.Kinds Memfs.RemoveAll Memfs.LinkFacts
+  Memfs.Wf Memfs.WfMore Memfs.WfMove Memfs.Spec Memfs.Refine Memfs.RefineMore Memfs.RefineChown Memfs.RefineChmod Memfs.RefineList Memfs.RefineCopy Memfs.Names Memfs.CopyFile Memfs.RefineMove Memfs.ContentFacts Memfs.Kinds Memfs.RemoveAll Memfs.LinkFacts
   Macros.Asserts.
 
 Definition resolve_t (env : envmap) (t : tree) (s : list N) : mres rpath :=
@@ -30,6 +30,9 @@ Definition node_bool (env : envmap) (t : tree) (s : list N) (f : node → bool) 
   | inr _ => inl (VBool false)
   | inl p => match t_nodes t !! p with Some n => inl (VBool (f n)) | None => inl (VBool false) end
   end.
+
+Definition nolinks_under (t : tree) (sp : rpath) : bool :=
+  forallb (λ qn : rpath * node, negb (bool_decide (sp `suffix_of` qn.1)) || negb (is_link_node qn.2)) (map_to_list (t_nodes t)).
 
 (* the reference filesystem, one call; None = a call this reference does not cover *)
 Definition spec_step (env : envmap) (t : tree) (o : op) : option (tree * result) :=
@@ -140,6 +143,34 @@ Definition spec_step (env : envmap) (t : tree) (o : op) : option (tree * result)
                               end
                    end
   | ORoot => Some (t, inl (VPath (render_rpath [])))
+  | OCopy s d o =>
+      (* covered: a source without links, not followed, to a path that does not exist and whose parent is a real directory, or (a directory)
+         into an existing real directory under its own name *)
+      if cp_follow o then None else
+      match resolve_t env t s, resolve_t env t d with
+      | inl sp, inl dp =>
+          match t_nodes t !! sp with
+          | Some n =>
+              if negb (nolinks_under t sp) then None else
+              match n_kind n with
+              | KLink => None
+              | KDir =>
+                  match t_nodes t !! dp, dp, sp with
+                  | None, db :: ddir, _ => if spec_is_dir t ddir && negb (bool_decide (sp `suffix_of` dp)) then Some (spec_copy_tree t o sp dp, inl VUnit) else None
+                  | Some _, _, b :: sd => if spec_is_dir t dp && negb (bool_decide (is_Some (t_nodes t !! (b :: dp)))) && negb (bool_decide (sp `suffix_of` (b :: dp)))
+                                          then Some (spec_copy_tree t o sp (b :: dp), inl VUnit) else None
+                  | _, _, _ => None
+                  end
+              | KFile =>
+                  match t_nodes t !! dp, dp with
+                  | None, db :: ddir => if spec_is_dir t ddir && negb (bool_decide (sp = dp)) then Some (spec_copy_tree t o sp dp, inl VUnit) else None
+                  | _, _ => None
+                  end
+              end
+          | None => None
+          end
+      | _, _ => None
+      end
   | OList k s => Some (t, match resolve_t env t s with
                           | inr _ => inr EIsNotDir
                           | inl p => if spec_is_dir t p then inl (VPaths (spec_list t k p)) else inr EIsNotDir
@@ -191,10 +222,26 @@ Proof.
 Qed.
 
 (* one call *)
-Theorem step_refines env m o t' r' : WF m → kinds_ok m → spec_step env (abs m) o = Some (t', r') →
+Lemma nolinks_under_spec m sp : nolinks_under (abs m) sp = true → ∀ q x, sp `suffix_of` q → m_ents m !! q = Some x → e_link x = false.
+Proof.
+  unfold nolinks_under. rewrite forallb_forall. intros H q x Hs Hx.
+  specialize (H (q, node_of x (m_data m !! q))). cbn in H. rewrite bool_decide_eq_true_2 in H by done. cbn in H.
+  destruct (e_link x) eqn:El; [|done]. exfalso.
+  assert (Hin : In (q, node_of x (m_data m !! q)) (map_to_list (t_nodes (abs m)))).
+  { apply elem_of_list_In, elem_of_map_to_list. by rewrite lookup_abs, Hx. }
+  specialize (H Hin). unfold is_link_node, node_of, kind_of_entry in H. cbn in H. by rewrite El in H.
+Qed.
+
+Lemma real_dir_of_spec m p : kinds_ok m → spec_is_dir (abs m) p = true → ∃ e, m_ents m !! p = Some e ∧ real_dir e.
+Proof.
+  intros HK H. destruct (queries_refine m p HK) as (_ & Hd & _). rewrite <- Hd in H. unfold is_dir_at in H.
+  destruct (m_ents m !! p) as [e|]; [|done]. exists e. split; [done|]. apply andb_true_iff in H as [H1 H2]. apply negb_true_iff in H2. by split.
+Qed.
+
+Theorem step_refines env m o t' r' : WF m → kinds_ok m → keys_ok m → spec_step env (abs m) o = Some (t', r') →
   ∃ m', step env m o = Done (m', r') ∧ abs m' = t'.
 Proof.
-  intros HW HK Hs.
+  intros HW HK Hkeys Hs.
   (* the three content writers, given their refinement *)
   assert (Hwrite : ∀ s d, (match resolve_t env (abs m) s with
                            | inr e => (abs m, inr e)
@@ -291,6 +338,37 @@ Proof.
     destruct (queries_refine m p HK) as (_ & Hd & _). rewrite <- Hd. fold (is_dir_at m p).
     destruct (is_dir_at m p) eqn:Hdir; [by rewrite (listing_refines env m k s p HW HK E Hdir)|].
     unfold listing_op. by rewrite E, Hdir.
+  - (* copy *) destruct (cp_follow o) eqn:Hnf; [discriminate|]. rewrite <- !resolve_abs in Hs.
+    destruct (resolve env m s) as [sp|e] eqn:Es; [|discriminate]. destruct (resolve env m d) as [dp|e] eqn:Ed; [|discriminate].
+    rewrite !lookup_abs in Hs. destruct (m_ents m !! sp) as [r|] eqn:Hr; [|discriminate]. cbn [fmap option_fmap option_map] in Hs.
+    destruct (nolinks_under (abs m) sp) eqn:Hnl; [|discriminate]. cbn [negb] in Hs. pose proof (nolinks_under_spec m sp Hnl) as Hnolink.
+    unfold node_of at 1 in Hs. cbn [n_kind] in Hs. unfold kind_of_entry in Hs.
+    pose proof (Hnolink sp r ltac:(done) Hr) as Hrl. rewrite Hrl in Hs.
+    destruct (e_dir r) eqn:Hrd.
+    + (* a directory *)
+      destruct (m_ents m !! dp) as [pd|] eqn:Hdp; cbn [fmap option_fmap option_map] in Hs.
+      * destruct sp as [|b sd]; [destruct dp; discriminate|].
+        assert (Hs' : (if spec_is_dir (abs m) dp && negb (bool_decide (is_Some (t_nodes (abs m) !! (b :: dp)))) && negb (bool_decide ((b :: sd) `suffix_of` (b :: dp)))
+                       then Some (spec_copy_tree (abs m) o (b :: sd) (b :: dp), inl VUnit) else None) = Some (t', r')) by (destruct dp; exact Hs).
+        clear Hs. destruct (spec_is_dir (abs m) dp) eqn:Hsd; [|discriminate]. cbn [andb] in Hs'.
+        case_bool_decide as Hfree; [discriminate|]. case_bool_decide as Hnotin; [discriminate|]. cbn in Hs'. injection Hs' as <- <-.
+        destruct (real_dir_of_spec m dp HK Hsd) as (pd' & Hpd' & Hpdr). rewrite Hdp in Hpd'. simplify_eq.
+        assert (Hfree' : m_ents m !! (b :: dp) = None).
+        { destruct (m_ents m !! (b :: dp)) eqn:E; [|done]. exfalso. apply Hfree. rewrite lookup_abs, E. by eexists. }
+        destruct (copy_into_refines env m s d o (b :: sd) dp b sd r pd' HW HK Hkeys Hnf Es Ed eq_refl Hr (conj Hrd Hrl) Hdp Hpdr Hfree' Hnotin Hnolink) as (m1 & -> & Ha).
+        exists m1. done.
+      * destruct dp as [|db ddir]; [discriminate|]. destruct (spec_is_dir (abs m) ddir) eqn:Hsd; [|discriminate]. cbn [andb] in Hs.
+        case_bool_decide as Hnotin; [discriminate|]. cbn in Hs. injection Hs as <- <-.
+        destruct (real_dir_of_spec m ddir HK Hsd) as (pd & Hpd & Hpdr).
+        destruct (copy_dir_refines env m s d o sp (db :: ddir) db ddir r pd HW HK Hkeys Hnf Es Ed Hr (conj Hrd Hrl) eq_refl Hdp Hpd Hpdr Hnotin Hnolink) as (m1 & -> & Ha).
+        exists m1. done.
+    + (* a regular file *)
+      destruct (m_ents m !! dp) as [pd|] eqn:Hdp; cbn [fmap option_fmap option_map] in Hs; [discriminate|].
+      destruct dp as [|db ddir]; [discriminate|]. destruct (spec_is_dir (abs m) ddir) eqn:Hsd; [|discriminate]. cbn [andb] in Hs.
+      case_bool_decide as Hne; [discriminate|]. cbn in Hs. injection Hs as <- <-.
+      destruct (real_dir_of_spec m ddir HK Hsd) as (pd & Hpd & Hpdr).
+      destruct (copy_file_refines env m s d o sp (db :: ddir) db ddir r pd HW HK Es Ed Hne Hr Hrd Hrl eq_refl Hdp Hpd Hpdr) as (m1 & -> & Ha).
+      exists m1. done.
   - (* chmod *) destruct (ch_follow o) eqn:Hnf; [discriminate|]. destruct (bool_decide (ch_sym o = [])) eqn:Hsy; [|discriminate].
     apply bool_decide_eq_true in Hsy. destruct (N.eqb (ch_dirs o) 0) eqn:Hd0; [discriminate|]. destruct (N.eqb (ch_files o) 0) eqn:Hf0; [discriminate|].
     apply N.eqb_neq in Hd0, Hf0. cbn [orb negb] in Hs. rewrite <- resolve_abs in Hs.
@@ -328,21 +406,22 @@ Fixpoint spec_run (env : envmap) (t : tree) (os : list op) : option (tree * list
                  end
   end.
 
-Theorem history_refines env os : ∀ m t rs, WF m → kinds_ok m → spec_run env (abs m) os = Some (t, rs) →
-  ∃ m', run env m os = Done (m', rs) ∧ abs m' = t ∧ WF m' ∧ kinds_ok m'.
+Theorem history_refines env os : ∀ m t rs, WF m → kinds_ok m → keys_ok m → spec_run env (abs m) os = Some (t, rs) →
+  ∃ m', run env m os = Done (m', rs) ∧ abs m' = t ∧ WF m' ∧ kinds_ok m' ∧ keys_ok m'.
 Proof.
-  induction os as [|o os IH]; intros m t rs HW HK Hs; cbn [spec_run run] in *; [simplify_eq; by exists m|].
+  induction os as [|o os IH]; intros m t rs HW HK Hkeys Hs; cbn [spec_run run] in *; [simplify_eq; by exists m|].
   destruct (spec_step env (abs m) o) as [[t1 r]|] eqn:Eo; [|done].
   destruct (spec_run env t1 os) as [[t2 rs']|] eqn:Er; [|done]. simplify_eq.
-  destruct (step_refines env m o t1 r HW HK Eo) as (m1 & Hstep & <-). rewrite Hstep.
+  destruct (step_refines env m o t1 r HW HK Hkeys Eo) as (m1 & Hstep & <-). rewrite Hstep.
   pose proof (wf_step env m o m1 r HW Hstep) as HW1. pose proof (kinds_step env m o m1 r HW HK Hstep) as HK1.
-  destruct (IH m1 t rs' HW1 HK1 Er) as (m' & -> & Ha & HW' & HK'). exists m'. done.
+  pose proof (keys_step env m o m1 r HW Hkeys Hstep) as Hkeys1.
+  destruct (IH m1 t rs' HW1 HK1 Hkeys1 Er) as (m' & -> & Ha & HW' & HK' & Hk'). exists m'. done.
 Qed.
 
 (* from the fresh filesystem *)
 Corollary history_refines_init env os t rs : spec_run env (abs mfs_init) os = Some (t, rs) →
   ∃ m', run env mfs_init os = Done (m', rs) ∧ abs m' = t.
-Proof. intros H. destruct (history_refines env os mfs_init t rs wf_init kinds_init H) as (m' & ? & ? & _). eauto. Qed.
+Proof. intros H. destruct (history_refines env os mfs_init t rs wf_init kinds_init keys_init H) as (m' & ? & ? & _). eauto. Qed.
 
 (* the reference covers a history that uses most of its alphabet: the premise of the theorem is satisfiable *)
 Example history_refines_nonvacuous :
@@ -352,8 +431,10 @@ Example history_refines_nonvacuous :
            OChmod [47; 97]%N {| ch_dirs := 448; ch_files := 416; ch_follow := false; ch_recursive := true; ch_sym := [] |};
            OChown [47; 97; 47; 98]%N {| co_uid := Some 5%N; co_gid := None; co_follow := false; co_recursive := true |};
            OMoveP [47; 97; 47; 98]%N [47; 99]%N; OSetCwd [47; 99]%N; OReadAll [102]%N; OMode [102]%N; ORemoveAll [47; 97]%N; ORoot;
-           OList LAllPaths [47]%N] with
-  | Some (t, rs) => (size (t_nodes t) =? 3) && (length rs =? 13) &&
+           OList LAllPaths [47]%N; OCopy [47; 99]%N [47; 100]%N {| cp_mode := None; cp_cdirs := false; cp_cfiles := false; cp_follow := false |};
+           OReadAll [47; 100; 47; 102]%N] with
+  | Some (t, rs) => (size (t_nodes t) =? 5) && (length rs =? 15) &&
+                    match nth 14 rs (inr EDoesNotExist) with inl (VBytes [1%N]) => true | _ => false end &&
                     match nth 12 rs (inr EDoesNotExist) with inl (VPaths [[47; 99]%N; [47; 99; 47; 102]%N]) => true | _ => false end &&
                     match nth 8 rs (inr EDoesNotExist) with inl (VBytes [1%N]) => true | _ => false end &&
                     match nth 9 rs (inr EDoesNotExist) with inl (VNum v) => N.eqb v (N.lor 416 Gen.Consts.c_type_bits_file) | _ => false end
